@@ -153,10 +153,11 @@ type Prelude struct {
 	ExtraDecl map[string]string // constructor/selector symbol -> module
 	Attach map[string][]string // module -> axiom modules attached to it (left out of lemma queries)
 	Monotone map[string]bool // ghost counters that never decrease
+	Grows map[string]bool // ghost sets that only grow
 }
 
 func LoadPrelude(paths ...string) (*Prelude, error) {
-	p := &Prelude{Fns: map[string]*SpecFn{}, Ghosts: map[string]string{}, Consts: map[string]string{}, ModDeps: map[string][]string{}, AfterSorts: map[string]bool{}, ExtraDecl: map[string]string{}, Attach: map[string][]string{}, Monotone: map[string]bool{}}
+	p := &Prelude{Fns: map[string]*SpecFn{}, Ghosts: map[string]string{}, Consts: map[string]string{}, ModDeps: map[string][]string{}, AfterSorts: map[string]bool{}, ExtraDecl: map[string]string{}, Attach: map[string][]string{}, Monotone: map[string]bool{}, Grows: map[string]bool{}}
 	for _, path := range paths {
 		data, err := os.ReadFile(path)
 		if err != nil {
@@ -189,6 +190,12 @@ func LoadPrelude(paths ...string) (*Prelude, error) {
 				module = f[0]
 				for _, d := range f[1:] {
 					p.ModDeps[module] = append(p.ModDeps[module], d)
+				}
+				continue
+			}
+			if strings.HasPrefix(s, ";@grows") {
+				for _, g := range strings.Fields(strings.TrimPrefix(s, ";@grows")) {
+					p.Grows[g] = true
 				}
 				continue
 			}
